@@ -567,6 +567,7 @@ fn bound_case(tr: &mut Tr, prop: &str, kind: &str, data: &[u8], level: i32, stra
     unsafe {
                     let bound = mz_compressBound(n as _) as usize;
                     let dbound = mz_deflateBound(std::ptr::null_mut(), n as _) as usize;
+                    let mut sbound = dbound;
                     let gin = Guarded::from(&data, true);
                     let gout = Guarded::new(bound, true);
                     let (rc, outn) = if strat == 0 {
@@ -577,7 +578,11 @@ fn bound_case(tr: &mut Tr, prop: &str, kind: &str, data: &[u8], level: i32, stra
                         let mut s = mz_stream::default();
                         let rc0 = mz_deflateInit2(&mut s, level, 8, 15, 9, strat);
                         if rc0 != 0 { (rc0, 0) } else {
-                            s.next_in = gin.ptr; s.avail_in = n as u32; s.next_out = gout.ptr; s.avail_out = bound as u32;
+                            // the bound taken from the initialised stream is the one a caller sizes its buffer with
+                            let sb = mz_deflateBound(&mut s, n as _) as usize;
+                            sbound = sb;
+                            let cap = sb.min(bound);
+                            s.next_in = gin.ptr; s.avail_in = n as u32; s.next_out = gout.ptr; s.avail_out = cap as u32;
                             let rc = mz_deflate(&mut s, 4);
                             let w = s.total_out as usize;
                             mz_deflateEnd(&mut s);
@@ -589,7 +594,7 @@ fn bound_case(tr: &mut Tr, prop: &str, kind: &str, data: &[u8], level: i32, stra
                     let mut c = CompressorOxide::new(flags);
                     let mut big = vec![0u8; n + n / 2 + 1000];
                     let res = deflate(&mut c, &data, &mut big, MZFlush::Finish);
-                    tr.ev(json!({"ev": "c_bound", "n": n, "level": level, "strategy": strat, "bound": bound, "dbound": dbound,
+                    tr.ev(json!({"ev": "c_bound", "n": n, "level": level, "strategy": strat, "bound": bound, "dbound": dbound, "sbound": sbound,
                         "ret": rc, "out_len": outn, "free_len": res.bytes_written, "free_status": code(res.status)}));
                     if n <= 20000 && rc == 0 {
                         tr.ev(json!({"ev": "input", "p": bytes(&data)}));
@@ -610,7 +615,7 @@ pub fn scn_bound(o: &Opts, tr: &mut Tr, prop: &str) {
             sizes.push(t);
         }
     }
-    for t in [1000usize, 5000, 5200, 6000, 12000, 20000, 40000, 58000, 59000] {
+    for t in [1000usize, 5000, 5200, 6000, 12000, 20000, 40000, 58000, 59000, 63490, 95235, 126980] {
         sizes.push(t);
     }
     let kinds = ["rand", "sparse3", "hibytes", "alpha2", "hibytes", "rand"];
@@ -626,6 +631,14 @@ pub fn scn_bound(o: &Opts, tr: &mut Tr, prop: &str) {
                 bound_case(tr, prop, kind, &data, level, strat, rep);
             }
               }
+        }
+    }
+    // a megabyte of 9-bit literals on the fast route with static blocks forced (every 31 KiB block must
+    // still fall back to a stored block), also in the quick tier
+    {
+        let data = gen::data("hibytes", 1_000_000, &mut r);
+        for level in [1i32, 2] {
+            bound_case(tr, prop, "hibytes", &data, level, 4, 9);
         }
     }
     // statistics that shift completely in the middle of a long input (every block's code must be
